@@ -1,0 +1,62 @@
+//! Plain data types returned by the verification hooks (compiled only with `--cfg redb_verif`).
+#![allow(missing_docs, clippy::pedantic)]
+
+use alloc::collections::BTreeMap;
+use alloc::vec::Vec;
+
+/// A B-tree root: (page number in its on-disk u64 encoding, checksum, length)
+pub type VerifRoot = Option<(u64, u128, u64)>;
+
+#[derive(Debug, Clone, Default)]
+pub struct VerifTrackerState {
+    pub next_savepoint_id: u64,
+    pub live_read_transactions: BTreeMap<u64, u64>,
+    pub next_transaction_id: u64,
+    pub live_write_transaction: Option<u64>,
+    pub valid_savepoints: BTreeMap<u64, u64>,
+    pub persistent_savepoints: Vec<u64>,
+    pub pending_non_durable_commits: BTreeMap<u64, u64>,
+    pub unprocessed_freed_non_durable_commits: Vec<u64>,
+    pub deferred_close: bool,
+}
+
+#[derive(Debug, Clone, Default)]
+pub struct VerifMemState {
+    pub page_size: u32,
+    pub region_max_pages: u32,
+    pub num_regions: u32,
+    pub layout_len: u64,
+    pub allocators_loaded: bool,
+    /// serialized `BuddyAllocator` per region
+    pub region_allocators: Vec<Vec<u8>>,
+    pub region_tracker: Vec<u8>,
+    pub latest_data_root: VerifRoot,
+    pub latest_system_root: VerifRoot,
+    pub latest_transaction_id: u64,
+    pub durable_data_root: VerifRoot,
+    pub durable_system_root: VerifRoot,
+    pub durable_transaction_id: u64,
+    pub read_from_secondary: bool,
+    pub needs_repair: bool,
+    pub unpersisted_pages: Vec<u64>,
+    pub unpersisted_allocations: BTreeMap<u64, Vec<u64>>,
+    pub unpersisted_data_freed: BTreeMap<u64, Vec<u64>>,
+    pub post_commit_allocations: Vec<u64>,
+}
+
+#[derive(Debug, Clone, Default)]
+pub struct VerifSnapshot {
+    pub mem: VerifMemState,
+    pub tracker: VerifTrackerState,
+}
+
+/// Page sets computed with redb's own tree traversal from the latest roots
+#[derive(Debug, Clone, Default)]
+pub struct VerifOwners {
+    pub data_tree_pages: Vec<u64>,
+    pub system_tree_pages: Vec<u64>,
+    /// (transaction id, page)
+    pub data_freed: Vec<(u64, u64)>,
+    pub system_freed: Vec<(u64, u64)>,
+    pub data_allocated: Vec<(u64, u64)>,
+}
